@@ -174,4 +174,77 @@ def spec (cfg : Cfg) (conns : List (Peer × Conn × Bool)) (circuits : List Circ
   else if !decide (circuits.length ≤ cfg.maxCirc) then "FAIL:circ_total"
   else "ok"
 
+/-! ## Spec, part 2: a ledger of circuits kept from what the relay DID
+
+Independent of the relay's own `CircuitsTracker`: a circuit enters the ledger when a circuit
+request is observed accepted (with the two connections it runs over, as recorded at acceptance),
+and leaves it when that circuit is observed closed or one of those two connections closes.  The
+per-peer and total circuit limits are judged on the ledger after every request. -/
+
+/-- the requests of the correspondence harness (each one a short sequence of `Op`s) -/
+inductive DOp where
+  | conn (p : Peer) (c : Conn)
+  | closeconn (p : Peer) (c : Conn)
+  | reserve (p : Peer) (c : Conn) (renewed : Bool)
+  /-- `pick` as in `Op.circReq` -/
+  | circuit (p : Peer) (c : Conn) (dst : Peer) (pick : Option Conn)
+  /-- a circuit request the relay admitted but the destination refused (STOP failed) -/
+  | circuitFail (p : Peer) (c : Conn) (dst : Peer)
+  | closecirc (id : Nat)
+  deriving Repr
+
+inductive DOut where
+  | ok
+  | resAcc
+  | resDeny
+  | circAcc (id : Nat)
+  | circDenyLimit
+  | circDenyNoRes
+  | stopFail
+  | panic
+  | badOracle
+  deriving DecidableEq, Repr
+
+/-- a request, executed: `reserve` = request + the handler's confirmation, `circuit` = request +
+`CircuitReqAccepted`, `circuitFail` = request + removal after the denied STOP -/
+def dstep (v : Variant) (cfg : Cfg) (st : St) : DOp → St × DOut
+  | .conn p c => ((step v cfg st (.established p c)).1, .ok)
+  | .closeconn p c => ((step v cfg st (.closed p c)).1, .ok)
+  | .reserve p c renewed =>
+    match step v cfg st (.resReq p c renewed true) with
+    | (st1, .resAccept) =>
+      match step v cfg st1 (.resAccepted p c) with
+      | (st2, .none) => (st2, .resAcc)
+      | (_, _) => (st, .panic)
+    | (st1, _) => (st1, .resDeny)
+  | .circuit p c dst pick =>
+    match step v cfg st (.circReq p c dst true pick) with
+    | (st1, .circAccept id) => ((step v cfg st1 (.circAccepted id)).1, .circAcc id)
+    | (st1, .circDenyLimit) => (st1, .circDenyLimit)
+    | (st1, .circDenyNoRes) => (st1, .circDenyNoRes)
+    | (_, _) => (st, .badOracle)
+  | .circuitFail p c dst =>
+    -- any active connection of `dst` serves: the circuit is dropped again
+    let dc := (st.conns.find? (fun e => e.1 == dst && e.2.2)).map (·.2.1)
+    match step v cfg st (.circReq p c dst true dc) with
+    | (st1, .circAccept id) => ((step v cfg st1 (.circRemove id)).1, .stopFail)
+    | (st1, .circDenyLimit) => (st1, .circDenyLimit)
+    | (st1, .circDenyNoRes) => (st1, .circDenyNoRes)
+    | (_, _) => (st, .badOracle)
+  | .closecirc id => ((step v cfg st (.circRemove id)).1, .ok)
+
+/-- the ledger after one observed request -/
+def ledgerStep (l : List Circuit) : DOp → DOut → List Circuit
+  | .circuit p c dst (some dc), .circAcc id => l ++ [⟨id, p, c, dst, dc, true⟩]
+  | .closecirc id, _ => l.filter (fun k => !(k.id == id))
+  | .closeconn p c, _ => l.filter (fun k => !onConn p c k)
+  | _, _ => l
+
+/-- the circuit limits judged on the ledger -/
+def specLedger (cfg : Cfg) (l : List Circuit) : String :=
+  if !l.all (fun k => decide (numOf l k.src ≤ cfg.maxCircPerPeer)
+      && decide (numOf l k.dst ≤ cfg.maxCircPerPeer)) then "FAIL:circ_per_peer"
+  else if !decide (l.length ≤ cfg.maxCirc) then "FAIL:circ_total"
+  else "ok"
+
 end C47
